@@ -202,6 +202,70 @@ func init() {
 		e.modelsUsed["math/big.Int as SMT Int (SetString base 10: optional sign, all digits)"] = true
 		return TupleV{z, True}, true
 	}
+	// arithmetic with a result receiver: z.Op(x, y) sets z and returns z. Add/Sub are linear; Mul and the shifts are
+	// modelled only when one operand is a constant (linear integer arithmetic), anything else is unsupported (fail closed).
+	binop := func(name string, f func(e *Engine, st *State, x, y *Term) (*Term, bool)) {
+		exact[bi+name] = func(e *Engine, st *State, fn *ssa.Function, args []Value, retTo *ssa.Call) (Value, bool) {
+			z, okz := args[0].(Ptr)
+			x, ok1 := e.bigOf(st, args[1])
+			y, ok2 := e.bigOf(st, args[2])
+			if !okz || z.Obj == 0 || !ok1 || !ok2 {
+				e.goPanic(st, "nil pointer dereference (big.Int."+name+")", nil)
+				return nil, true
+			}
+			r, ok := f(e, st, x, y)
+			if !ok {
+				e.unsupported_(st, "big.Int."+name+" of two symbolic operands")
+				return nil, true
+			}
+			st.setBig(z, r)
+			e.modelsUsed["math/big.Int arithmetic as SMT Int (Add, Sub, Mul/Lsh/Rsh by constants)"] = true
+			return z, true
+		}
+	}
+	binop("Add", func(e *Engine, st *State, x, y *Term) (*Term, bool) { return intOp("+", IntSort, x, y), true })
+	binop("Sub", func(e *Engine, st *State, x, y *Term) (*Term, bool) { return intOp("-", IntSort, x, y), true })
+	binop("Mul", func(e *Engine, st *State, x, y *Term) (*Term, bool) {
+		if !x.IsConst() && !y.IsConst() {
+			return nil, false
+		}
+		return intOp("*", IntSort, x, y), true
+	})
+	shift := func(name string, left bool) {
+		exact[bi+name] = func(e *Engine, st *State, fn *ssa.Function, args []Value, retTo *ssa.Call) (Value, bool) {
+			z, okz := args[0].(Ptr)
+			x, ok1 := e.bigOf(st, args[1])
+			n, okn := args[2].(*Term)
+			if !okz || z.Obj == 0 || !ok1 {
+				e.goPanic(st, "nil pointer dereference (big.Int."+name+")", nil)
+				return nil, true
+			}
+			if !okn || !n.IsConst() || n.Int64() < 0 || n.Int64() > 4096 || (!left && !x.IsConst()) {
+				e.unsupported_(st, "big.Int."+name+" with a symbolic operand")
+				return nil, true
+			}
+			pw := new(big.Int).Lsh(big.NewInt(1), uint(n.Int64()))
+			if left {
+				st.setBig(z, intOp("*", IntSort, x, ConstInt(pw)))
+			} else {
+				st.setBig(z, ConstInt(new(big.Int).Rsh(x.val, uint(n.Int64()))))
+			}
+			e.modelsUsed["math/big.Int arithmetic as SMT Int (Add, Sub, Mul/Lsh/Rsh by constants)"] = true
+			return z, true
+		}
+	}
+	shift("Lsh", true)
+	shift("Rsh", false)
+	exact[bi+"Set"] = func(e *Engine, st *State, fn *ssa.Function, args []Value, retTo *ssa.Call) (Value, bool) {
+		z, okz := args[0].(Ptr)
+		x, ok1 := e.bigOf(st, args[1])
+		if !okz || z.Obj == 0 || !ok1 {
+			e.goPanic(st, "nil pointer dereference (big.Int.Set)", nil)
+			return nil, true
+		}
+		st.setBig(z, x)
+		return z, true
+	}
 	exact[bi+"Cmp"] = func(e *Engine, st *State, fn *ssa.Function, args []Value, retTo *ssa.Call) (Value, bool) {
 		x, ok1 := e.bigOf(st, args[0])
 		y, ok2 := e.bigOf(st, args[1])
